@@ -787,23 +787,28 @@ class BptkServer(Flask):
         
         instance = self._instance_manager.get_instance(instance_uuid)
 
-        if(instance.is_locked()):
+        # a single step takes the session lock too: it must not run inside (or next to) another stepping request
+        if(not instance.try_lock()):
             resp = make_response('{"error": "instace is locked"}', 500)
             resp.headers['Content-Type'] = 'application/json'
             resp.headers['Access-Control-Allow-Origin'] = '*'
             return resp
 
-        if not request.is_json:
-            result = instance.run_step()
-        else:
-            content = request.get_json()
-            if "settings" in content:
-                result = instance.run_step(settings=content["settings"], flat="flatResults" in content and content["flatResults"] == True)
+        try:
+            if not request.is_json:
+                result = instance.run_step()
             else:
-                resp = make_response('{"error": "expecting settings to be set"}', 500)
-                resp.headers['Content-Type'] = 'application/json'
-                resp.headers['Access-Control-Allow-Origin'] = '*'
-                return resp
+                content = request.get_json()
+
+                if "settings" in content:
+                    result = instance.run_step(settings=content["settings"], flat="flatResults" in content and content["flatResults"] == True)
+                else:
+                    resp = make_response('{"error": "expecting settings to be set"}', 500)
+                    resp.headers['Content-Type'] = 'application/json'
+                    resp.headers['Access-Control-Allow-Origin'] = '*'
+                    return resp
+        finally:
+            instance.unlock()
 
         if result is not None:
             resp = make_response(jsonpickle.dumps(result), 200)
@@ -842,18 +847,21 @@ class BptkServer(Flask):
                 resp.headers['Access-Control-Allow-Origin'] = '*'
                 return resp
 
-            if(instance.is_locked()):
-                resp = make_response('{"error": "instace is locked"}', 500)
-                resp.headers['Content-Type'] = 'application/json'
-                resp.headers['Access-Control-Allow-Origin'] = '*'
-                return resp
             content = request.get_json()
+
             if "numberSteps" in content:
                 if "settings" in content:
-                    instance.lock()
-                    for i in range(0,content["numberSteps"]):
-                        result.append(instance.run_step(settings=content["settings"], flat="flatResults" in content and content["flatResults"] == True))
-                    instance.unlock()
+                    # checking and taking the lock is one atomic step
+                    if(not instance.try_lock()):
+                        resp = make_response('{"error": "instace is locked"}', 500)
+                        resp.headers['Content-Type'] = 'application/json'
+                        resp.headers['Access-Control-Allow-Origin'] = '*'
+                        return resp
+                    try:
+                        for i in range(0,content["numberSteps"]):
+                            result.append(instance.run_step(settings=content["settings"], flat="flatResults" in content and content["flatResults"] == True))
+                    finally:
+                        instance.unlock()
                 else:
                     resp = make_response('{"error": "expecting settings to be set"}', 500)
                     resp.headers['Content-Type'] = 'application/json'
@@ -865,7 +873,8 @@ class BptkServer(Flask):
                 resp.headers['Access-Control-Allow-Origin'] = '*'
                 return resp
         except:
-            instance.unlock()
+            pass # the lock has been released by the finally clause above; the steps taken so far are returned
+
         if result is not None:
             resp = make_response(jsonpickle.dumps(result), 200)
         else:
@@ -907,7 +916,9 @@ class BptkServer(Flask):
                 resp.headers['Access-Control-Allow-Origin'] = '*'
                 return resp
 
-        if(instance.is_locked()):
+        # the lock is taken here, atomically with the check, and released when the response is closed -
+        # after the last chunk, after an error, or when the client has gone away
+        if(not instance.try_lock()):
             resp = make_response('{"error": "instace is locked"}', 500)
             resp.headers['Content-Type'] = 'application/json'
             resp.headers['Access-Control-Allow-Origin'] = '*'
@@ -915,7 +926,6 @@ class BptkServer(Flask):
 
         def streamer():
             try:
-                instance.lock()
                 yield "["
                 first = True
                 # stream until the session clock has passed the stop time (the ratio step/stoptime says nothing for stop times <= 0)
@@ -934,12 +944,16 @@ class BptkServer(Flask):
                     else:
                         yield '{"error": "no data was returned from run_step"}'
                 yield "]"
-            except:
+            except Exception:
+                pass
+            finally:
                 instance.unlock()
+
             if self._external_state_adapter != None:
                 self._external_state_adapter.save_instance(self._instance_manager._get_instance_state(instance_uuid))
 
         resp = Response(streamer())
+        resp.call_on_close(instance.unlock) # also when the stream is never started or is abandoned half-way
         resp.headers['Content-Type'] = 'application/json'
         resp.headers['Access-Control-Allow-Origin'] = '*'
         return resp
